@@ -527,6 +527,11 @@ func (s *BaseNodeService) reinitDKG(message storage.Message) error {
 		return fmt.Errorf("failed to umarshal request:  %w", err)
 	}
 
+	// a reinit message concerns the round it is posted for and no other one
+	if req.DKGID != message.DkgRoundID {
+		return fmt.Errorf("reinit payload is for round %q, but the message is for round %q", req.DKGID, message.DkgRoundID)
+	}
+
 	roundExist, existErr := s.fsmService.IsExist(req.DKGID)
 	if existErr != nil {
 		return existErr
@@ -547,6 +552,12 @@ func (s *BaseNodeService) reinitDKG(message storage.Message) error {
 	for _, msg := range req.Messages {
 		if fsm.Event(msg.Event) == sif.EventSigningStart {
 			break
+		}
+
+		// the patch messages are processed without verification,
+		// they must not reach any round other than the one being reinitialized
+		if msg.DkgRoundID != req.DKGID {
+			continue
 		}
 
 		// LDC-07 Messages May Be Sent to a Single Node
@@ -579,9 +590,6 @@ func (s *BaseNodeService) reinitDKG(message storage.Message) error {
 	if err != nil {
 		return fmt.Errorf("failed to calculat reinitDKG message hash: %w", err)
 	}
-	if err := s.opService.PutOperation(operation); err != nil {
-		return fmt.Errorf("failed to PutOperation: %w", err)
-	}
 
 	// save new comm keys into FSM to verify future messages
 	fsmInstance, err := s.fsmService.GetFSMInstance(req.DKGID, true)
@@ -596,7 +604,12 @@ func (s *BaseNodeService) reinitDKG(message storage.Message) error {
 		return fmt.Errorf("failed to get FSM dump")
 	}
 
-	if err := s.fsmService.SaveFSM(message.DkgRoundID, fsmDump); err != nil {
+	// nothing is stored before everything that can fail on the message itself has been done
+	if err := s.opService.PutOperation(operation); err != nil {
+		return fmt.Errorf("failed to PutOperation: %w", err)
+	}
+
+	if err := s.fsmService.SaveFSM(req.DKGID, fsmDump); err != nil {
 		return fmt.Errorf("failed to SaveFSM: %w", err)
 	}
 
